@@ -45,6 +45,30 @@ def make_target(value: Any, ename: str, declared: bool):
     return target
 
 
+class UserText(str):
+    pass
+
+
+class UserNumber(int):
+    pass
+
+
+def with_value(tv: TV, ename: str, wrapped) -> Any:
+    """erase(tv) with every custom (undeclared) value of enumeration `ename` replaced by `wrapped`"""
+    from ..tvgen import L, Mp, S, T, U
+    if isinstance(tv, S):
+        return {k: with_value(v, ename, wrapped) for k, v in tv.props.items()}
+    if isinstance(tv, (L, T)):
+        return [with_value(v, ename, wrapped) for v in tv.items]
+    if isinstance(tv, Mp):
+        return {k: with_value(v, ename, wrapped) for k, v in tv.items.items()}
+    if isinstance(tv, U):
+        return with_value(tv.child, ename, wrapped)
+    if isinstance(tv, P) and tv.how[0] == "enum" and tv.how[1] == ename and not tv.how[2] and tv.v == wrapped:
+        return wrapped
+    return erase(tv)
+
+
 def with_members(tv: TV, ename: str, ecls) -> Any:
     """erase(tv) with every declared value of enumeration `ename` given as the member object"""
     from ..tvgen import A, L, Mp, N, S, T, U
@@ -124,6 +148,22 @@ def _work(args) -> dict:
                 for f in roundtrip_relation(sub.objects, o, tv, f"root:{rname}"):
                     if f[1] == site or f[1].startswith(site + "|"):
                         ctx.finding((f[0], f[1], f"{site}:{kind}"), f"value {value!r}: {f[3]}", case)
+                if kind == "custom" and isinstance(value, (str, int)) and not isinstance(value, bool):
+                    # the custom value as an instance of a subclass of the base type (what YAML/TOML readers, numpy or a
+                    # user's own wrapper hand over): still a value of the base type
+                    wrapped = (UserText if isinstance(value, str) else UserNumber)(value)
+                    jm = with_value(tv, ename, wrapped)
+                    res["evaluations"] += 1
+                    res["kinds"]["custom-as-subclass"] += 1
+                    try:
+                        om = json.loads(json.dumps(sub.conv.unstructure(sub.conv.structure(jm, T), T)))
+                    except Exception as ex:
+                        ctx.finding((f"raises:{exc_sig(ex)}", exc_frame(ex), f"{site}:custom-as-subclass"), f"{type(wrapped).__name__}({value!r}) at an open {ename} position: {exc_detail(ex)}", case)
+                        om = None
+                    if om is not None:
+                        for f in roundtrip_relation(sub.objects, om, tv, f"root:{rname}"):
+                            if f[1] == site or f[1].startswith(site + "|"):
+                                ctx.finding((f[0], f[1], f"{site}:custom-as-subclass"), f"{type(wrapped).__name__}({value!r}): {f[3]}", case)
                 if kind == "declared":
                     # the declared value offered as the package's own constant (a str / int subclass instance)
                     jm = with_members(tv, ename, getattr(sub.types, ename))
